@@ -46,7 +46,8 @@ def main():
       out = results.setdefault(sid, {"property": meta["property"], "runs": {}})
       for p in checks:
         env = dict(os.environ, VERIF_REPO=wt, VERIF_EVIDENCE_DIR="/tmp/seedrun/ev_%s" % sid, VERIF_WORK_DIR="/tmp/seedrun/work_%s" % sid,
-                   VERIF_REPLAYS_DIR="/tmp/seedrun/replays_%s" % sid)
+                   VERIF_REPLAYS_DIR="/tmp/seedrun/replays_%s" % sid,
+                   VERIF_TLC_CACHE_DIR="/tmp/seedrun/tlc_cache")   # design-level TLC runs depend on /verif/spec only: shared by all seeds
         t0 = time.time()
         r = subprocess.run([os.path.join(VERIF, "check"), p, "--tier", args.tier, "--seed", args.seed], env=env, stdout=subprocess.PIPE, stderr=subprocess.STDOUT, text=True)
         viol = [l for l in r.stdout.splitlines() if l.startswith("VIOLATION")]
